@@ -127,3 +127,38 @@ Proof.
   apply spec_init_sound. intros [n [Hin [Hs Hn]]].
   destruct (rejects_undeclared ep be n Hin Hs Hn) as [w ->]. reflexivity.
 Qed.
+
+(* ---- configurations with several endpoints ---- *)
+From Coq Require Import Permutation.
+
+Lemma config_conjunction eps :
+  init_config eps = true <->
+  forall e, In e eps -> exists p k, init (fst e) (snd e) = Accepted p k.
+Proof.
+  unfold init_config. rewrite forallb_forall. split.
+  - intros H e Hin. specialize (H e Hin). destruct (init (fst e) (snd e)); [eauto|discriminate].
+  - intros H e Hin. destruct (H e Hin) as [p [k ->]]. reflexivity.
+Qed.
+
+Lemma config_order_independent eps eps' :
+  Permutation eps eps' -> init_config eps = init_config eps'.
+Proof.
+  intros Hp. destruct (init_config eps) eqn:E.
+  - symmetry. apply config_conjunction. intros e Hin.
+    apply (proj1 (config_conjunction eps) E). eapply Permutation_in; [apply Permutation_sym, Hp|exact Hin].
+  - destruct (init_config eps') eqn:E'; [|reflexivity].
+    assert (init_config eps = true); [|congruence].
+    apply config_conjunction. intros e Hin.
+    apply (proj1 (config_conjunction eps') E'). eapply Permutation_in; [exact Hp|exact Hin].
+Qed.
+
+Lemma config_rejects_undeclared eps ep be n :
+  In (ep, be) eps ->
+  In n (backend_outputs (clean_path be)) -> seq_ref n = false ->
+  ~ In n (endpoint_params (clean_path ep)) ->
+  init_config eps = false.
+Proof.
+  intros Hin Hn Hs Hd. destruct (init_config eps) eqn:E; [|reflexivity].
+  destruct (proj1 (config_conjunction eps) E (ep, be) Hin) as [p [k Hacc]]. cbn [fst snd] in Hacc.
+  destruct (rejects_undeclared ep be n Hn Hs Hd) as [w Hw]. congruence.
+Qed.
